@@ -146,6 +146,18 @@ def run(ctx):
     if s["extra"]["lines_loaded"] == 0:
         raise V.Machinery("no document loaded at all: the driver cannot observe any resolved configuration")
     lines, total = validate(ctx, obs, "cf")
+    # documents in which several entries carry the same service name: each is an upstream of its own (ConfigDupTrace.tla)
+    dobs = os.path.join(ctx.scratch, "dup.ndjson")
+    ds = V.harness(ctx, ["cf-dup", "-out", dobs, "-seed", ctx.seed, "-n", 80 if quick else 2000])
+    dv, _, _ = V.leg_v(ctx, "ConfigDupTrace", "ConfigDupTrace.cfg", dobs, strip=("conc",), label="V-dup")
+    for lineno, rules in dv:
+        rec = V.read_line(dobs, lineno)
+        for rule in rules:
+            if rule.startswith("HARNESS_"):
+                raise V.Machinery("dup probe line %d: %s: %s" % (lineno, rule, json.dumps(rec)[:600]))
+            V.report(ctx, rule, rec, "a document whose entries %s share a service name loaded with %d upstream(s) that have no allow rule at all (no deployment default is set)"
+                     % (json.dumps(rec["names"]), rec["open"]), {"kind": "dup", "record": rec})
+    ctx.cov["same_name_documents"] = ds["executed"]
     # vacuity: how often each rule family had something to decide (counted on the abstract inputs by the driver summary and here)
     ante = {"loaded": 0, "malformed_expected_err": 0, "cluster_opts_over_default_opts": 0, "extra_route": 0, "tpl": 0, "other_cluster": 0, "prod": 0,
             "uncompilable_skip_pattern": 0, "unknown_type": 0, "uncompilable_from": 0, "missing_from_or_to": 0, "no_service_name": 0,
@@ -221,6 +233,15 @@ def replay(ctx, path):
     rp = json.load(open(path))
     rec = rp["record"]
     V.build_harness(ctx)
+    if rp.get("kind") == "dup":
+        dobs = os.path.join(ctx.scratch, "dup.ndjson")
+        V.harness(ctx, ["cf-dup", "-out", dobs, "-seed", rp["seed"], "-n", 80 if rp["tier"] == "quick" else 2000])
+        dv, _, _ = V.leg_v(ctx, "ConfigDupTrace", "ConfigDupTrace.cfg", dobs, strip=("conc",), label="V-dup")
+        for lineno, rules in dv:
+            r2 = V.read_line(dobs, lineno)
+            for rule in rules:
+                V.report(ctx, rule, r2, "same-name document %s loaded with %d open upstream(s)" % (json.dumps(r2["names"]), r2["open"]), {"kind": "dup", "record": r2})
+        return V.finish(ctx, RULE)
     cells, n = gen_cells(ctx)
     doc = rec["doc"] if rec["doc"] >= 0 else -rec["doc"] - 1
     obs = os.path.join(ctx.scratch, "cf.ndjson")
